@@ -88,9 +88,22 @@ class Tree:
     def exists(self, rel):
         return os.path.exists(self.path(rel))
 
-    def conf(self, policy_dirs=None, policy_file=None, **overrides):
+    def conf(self, policy_dirs=None, policy_file=None, relative=False, **overrides):
         if policy_dirs is None:
             policy_dirs = list(self.dirs)
+        if relative:
+            # names relative to a configuration directory (the tree root), resolved by the library's own lookup
+            from oslo_config import cfg
+            from oslo_policy import opts
+            conf = cfg.ConfigOpts()
+            conf(['--config-dir', self.root], default_config_dirs=[], default_config_files=[])
+            opts._register(conf)
+            rel = lambda p: os.path.relpath(p, self.root) if os.path.isabs(p) else p
+            conf.set_override('policy_file', rel(policy_file or self.main), group='oslo_policy')
+            conf.set_override('policy_dirs', [rel(d) for d in policy_dirs], group='oslo_policy')
+            for k, v in overrides.items():
+                conf.set_override(k, v, group='oslo_policy')
+            return conf
         return env.fresh_conf(policy_file=policy_file or self.main,
                               policy_dirs=list(policy_dirs), **overrides)
 
